@@ -39,6 +39,9 @@ type AmtCase struct {
 	// DstDec, and only then the measured request is made
 	OldRate   string `json:"old_rate,omitempty"`
 	OldDstDec uint64 `json:"old_dst_dec,omitempty"`
+	// TempDust: hub-denom units already lying on the module's transit address (types.TempAddress) when the measured
+	// request arrives - commission remainders and non-Minter fee refunds collect there, and anyone can send to it
+	TempDust string `json:"temp_dust,omitempty"`
 }
 
 var tierBounds = []int64{1, 2, 4, 8, 16, 32}
@@ -118,6 +121,9 @@ func genAmtCase(t *rapid.T) interface{} {
 	}
 	c.HolderForm = rapid.SampledFrom([]int{0, 0, 0, 1, 2}).Draw(t, "hform")
 	c.Recipient = rapid.IntRange(0, 3).Draw(t, "rcpt")
+	if rapid.IntRange(0, 2).Draw(t, "dusty") == 0 {
+		c.TempDust = rapid.SampledFrom([]string{"1", "2", "999", "1000000000000000000", "123456789012345678901234"}).Draw(t, "dust")
+	}
 	return c
 }
 
@@ -217,7 +223,15 @@ func runAmtCase(ci interface{}, rec *pbt.Rec) *pbt.Failure {
 		if bal.BitLen() > 256 { // more than an sdk.Int can hold ("exactly enough" for two 2^255-scale values): the largest balance there is
 			bal = new(big.Int).Sub(new(big.Int).Lsh(big.NewInt(1), 256), big.NewInt(1))
 		}
+		if c.Kind != "send" && bal.BitLen() > 254 {
+			// a deposit mints: with the supply already at the top of the range the mint itself is impossible (C05's subject, not a
+			// question of amounts); the sender's balance plays no part in a deposit, so it stays where a mint still fits
+			bal = new(big.Int).Lsh(big.NewInt(1), 254)
+		}
 		h.Fund(sender, "hub", bal)
+	}
+	if c.TempDust != "" {
+		h.Fund(mtypes.TempAddress, "hub", bi(c.TempDust))
 	}
 	if err := h.Begin(1, 1600000005); err != nil {
 		return pbt.Failf("harness", "begin: %v", err)
